@@ -108,10 +108,19 @@ class Ref:
                 return ('ok', None)
             if oc == 'zero':
                 return ('ok', 0)
+            if oc == 'ambig':
+                from mc import world as _W
+                return ('ok', _W.Ambig(val))
+            if oc == 'excval':
+                from mc import world as _W
+                self.tags.add('value.exception-instance')
+                return ('ok', _W.ExcValue(n, val))
             if oc.startswith('label:'):
                 return ('ok', oc[6:])
             if oc == 'next':
                 return ('ok', (REC, ('it', n, i)))
+            if oc == 'next0':
+                return ('ok', (REC, 0))
             if oc.startswith('raise:'):
                 cls = oc[6:]
                 if cls == 'Fatal':
@@ -121,6 +130,11 @@ class Ref:
                     continue
                 if nd.get('use_default'):
                     self.defaults.append((n, dict(kwargs), False))
+                    if nd.get('default_raises'):
+                        # get_default itself raises: the node has no value; its failure is the node's failure
+                        self.tags.add('default-raises')
+                        self.own_failures.add(n)
+                        return ('fail', frozenset({('node', n, i)}))
                     return ('ok', ('default', n, tuple(sorted(kwargs.items(), key=lambda kv: kv[0]))))
                 self.own_failures.add(n)
                 return ('fail', frozenset({('node', n, i)}))
@@ -138,6 +152,12 @@ class Ref:
         nd = self.nodes[n]
         kwargs: dict = {}
         fails: t.Set[tuple] = set()
+        if n != self.spec['input'] and not any(p[1] != 'plain' for p in nd['params']):
+            # a node that declares no marks is linked to the input node implicitly (C15): it runs after it, without arguments
+            self.tags.add('markless-node')
+            r0 = self.need_final(self.spec['input'])
+            if r0[0] != 'ok':
+                fails |= r0[1]
         for kw, kind, arg in nd['params']:
             if kind == 'plain':
                 continue
@@ -177,9 +197,14 @@ class Ref:
                 nd = self.nodes[m]
                 self.tags.add('rec.exhausted')
                 if nd.get('use_default'):
-                    last_kwargs = [x for x in self.inv if x.node == m][-1].kwargs
+                    last = [x for x in self.inv if x.node == m][-1]
+                    last_kwargs = last.kwargs
                     self.defaults.append((m, dict(last_kwargs), True))
-                    r = ('ok', ('default', m, tuple(sorted(last_kwargs.items(), key=lambda kv: kv[0]))))
+                    if nd.get('default_raises'):
+                        self.tags.add('default-raises')
+                        r = ('fail', frozenset({('node', m, last.idx)}))
+                    else:
+                        r = ('ok', ('default', m, tuple(sorted(last_kwargs.items(), key=lambda kv: kv[0]))))
                 else:
                     r = ('fail', frozenset({'rec'}))
                 break
